@@ -259,7 +259,7 @@ pub fn subs() -> Vec<Box<dyn Sub>> {
             rule: "tags()/module_tags() vs the reference walk (address offsets, stored type/size, payload extent, panic step, stays exhausted). Enumerated: every region of 1..=5 (thorough 6) payload words, DFS over the size word 0..=remaining+9 at each visited offset. Generated: up to 24 tags with tampered size words (all residues mod 8, beyond the region), missing/invalid end tags. Non-trivial = >=2 tags with a size not a multiple of 8, or a walk the model ends in a panic; distinct by region hash",
             profiles: Profiles::Both,
             quick: 40000,
-            thorough: 600000,
+            thorough: 3000000,
             strategy,
             enumerate: Some(enumerate),
             enum_exhaustive: false,
@@ -270,7 +270,7 @@ pub fn subs() -> Vec<Box<dyn Sub>> {
             rule: "up to 24 operations {next(i), clone(i), fresh, module_tags} over up to 4 iterators on one region; model = index into the reference walk; checks repeatability across clones/fresh iterators, exhaustion, panic step. Non-trivial = history with a clone taken mid-walk; distinct by (ops, region)",
             profiles: Profiles::Both,
             quick: 30000,
-            thorough: 500000,
+            thorough: 2500000,
             strategy: hist_strategy,
             enumerate: None,
             enum_exhaustive: false,
